@@ -298,37 +298,68 @@ def rule_r4(chk, p, t):
         m = p.cls(D + name).methods.get("_calculate")
 
         def one(m=m, name=name):
+            import copy
+
             loops = [n for n in walk_no_nested(m.node) if isinstance(n, ast.For)]
             if not loops and name.startswith("Myopic"):
                 return vectorised_greedy(m)
             require(len(loops) == 1, "one loop over sensors expected", m.node)
             lp = loops[0]
             it = lp.iter
-            ok_it = isinstance(it, ast.Call) and call_name(it) == "range" and len(it.args) == 1 and unparse(it.args[0]).endswith(".shape[1]")
-            var = lp.target.id if isinstance(lp.target, ast.Name) else None
-            stores = [n for n in ast.walk(lp) if isinstance(n, ast.Assign) and isinstance(n.targets[0], ast.Subscript) and unparse(n.targets[0].value) == "decision_matrix"]
+            rw, vis = m.params[1], m.params[2]
+            # column-iteration idioms: `for j in range(M.shape[1])` / `for j, col in enumerate(M.T)`
+            var, alias = None, {}
+            if isinstance(it, ast.Call) and call_name(it) == "range" and len(it.args) == 1 and unparse(it.args[0]) in (f"{rw}.shape[1]", f"{vis}.shape[1]", f"{rw}.shape[-1]", f"{vis}.shape[-1]", f"len({rw}.T)", f"len({vis}.T)") and isinstance(lp.target, ast.Name):
+                var = lp.target.id
+            elif isinstance(it, ast.Call) and call_name(it) == "enumerate" and len(it.args) == 1 and unparse(it.args[0]) in (f"{rw}.T", f"{vis}.T", f"{rw}.transpose()", f"{vis}.transpose()") and isinstance(lp.target, ast.Tuple) and len(lp.target.elts) == 2 and all(isinstance(x, ast.Name) for x in lp.target.elts):
+                var = lp.target.elts[0].id
+                mat = unparse(it.args[0]).split(".")[0]
+                alias[lp.target.elts[1].id] = ast.parse(f"{mat}[:, {var}]", mode="eval").body
             bad = []
-            if not ok_it:
-                bad.append(f"loop iterates `{unparse(it)}`, expected range(<matrix>.shape[1]) (sensors are columns)")
+            if var is None:
+                bad.append(f"loop iterates `{unparse(it)}`, expected the sensor columns (range(<matrix>.shape[1]) or enumerate(<matrix>.T))")
+                r.violation(m.qualname, "shape:" + ";".join(bad), f"{name}: " + "; ".join(bad), m.loc())
+                return
+
+            ldefs = {}
+            for n in ast.walk(lp):
+                if isinstance(n, ast.Assign) and len(n.targets) == 1 and isinstance(n.targets[0], ast.Name):
+                    ldefs.setdefault(n.targets[0].id, []).append(n.value)
+
+            def norm(e, depth=0):
+                class N(ast.NodeTransformer):
+                    def visit_Name(self, nn):
+                        if nn.id in alias:
+                            return copy.deepcopy(alias[nn.id])
+                        if nn.id in ldefs and len(ldefs[nn.id]) == 1 and depth < 4 and nn.id != var:
+                            return norm(ldefs[nn.id][0], depth + 1)
+                        return nn
+
+                return N().visit(copy.deepcopy(e))
+
+            stores = [n for n in ast.walk(lp) if isinstance(n, ast.Assign) and isinstance(n.targets[0], ast.Subscript) and unparse(n.targets[0].value) == "decision_matrix"]
             if len(stores) != 1:
                 bad.append(f"{len(stores)} stores per iteration")
             else:
                 sl = stores[0].targets[0].slice
-                if not (isinstance(sl, ast.Tuple) and len(sl.elts) == 2 and isinstance(sl.elts[1], ast.Name) and sl.elts[1].id == var and isinstance(sl.elts[0], ast.Name)):
+                if not (isinstance(sl, ast.Tuple) and len(sl.elts) == 2 and unparse(norm(sl.elts[1])) == var):
                     bad.append(f"store index `{unparse(sl)}` is not [target index, sensor loop variable]")
                 else:
-                    tdef = [n for n in ast.walk(lp) if isinstance(n, ast.Assign) and isinstance(n.targets[0], ast.Name) and n.targets[0].id == sl.elts[0].id]
-                    if len(tdef) != 1:
-                        bad.append("target index not defined once per iteration")
+                    tv = norm(sl.elts[0])
+                    txt = unparse(tv)
+                    if name.startswith("Myopic"):
+                        col = f"{rw}[:, {var}]"
+                        if txt not in (f"argmax({col})", f"{col}.argmax()", f"int(argmax({col}))", f"nanargmax({col})"):
+                            bad.append(f"target index is `{txt}`, expected argmax(reward_matrix[:, sensor])")
                     else:
-                        tv = tdef[0].value
-                        if name.startswith("Myopic"):
-                            if not (isinstance(tv, ast.Call) and call_name(tv) == "argmax" and unparse(tv.args[0]) == f"{m.params[1]}[:, {var}]"):
-                                bad.append(f"target index is `{unparse(tv)}`, expected argmax(reward_matrix[:, sensor])")
-                        else:
-                            txt = unparse(tv)
-                            if not (isinstance(tv, ast.Call) and call_name(tv) == "choice" and f"{m.params[2]}[:, {var}].nonzero()[0]" in txt and txt.rstrip(")").endswith(", 1")):
-                                bad.append(f"target index is `{txt}`, expected one draw among visibility_matrix[:, sensor].nonzero()[0]")
+                        col = f"{vis}[:, {var}]"
+                        pools = (f"{col}.nonzero()[0]", f"flatnonzero({col})", f"where({col})[0]", f"nonzero({col})[0]")
+                        ok_draw = isinstance(tv, ast.Call) and call_name(tv) == "choice" and tv.args and unparse(tv.args[0]) in pools
+                        if ok_draw:
+                            size = tv.args[1] if len(tv.args) > 1 else next((k.value for k in tv.keywords if k.arg == "size"), None)
+                            ok_draw = size is None or unparse(size) in ("1", "None", "(1,)")
+                        if not ok_draw:
+                            bad.append(f"target index is `{txt}`, expected one draw among visibility_matrix[:, sensor].nonzero()[0]")
                 if unparse(stores[0].value) != "True":
                     bad.append("stored value is not True")
             if bad:
